@@ -1442,6 +1442,7 @@ func variadicNotCappedRule(w *World, r *Report, rule string, lispNames ...string
 func printPureRule(w *World, r *Report, rule string) {
 	r.rule(rule, "the printer and every LispPrint method of the module only read the value they print: no channel receive, send or select, no store to a field reached through the receiver or a parameter, no mutating sync/atomic operation (a future or atom whose printed form is computed by taking its outcome or setting a flag changes when a stepper - which prints every result it steps over - is installed)")
 	n := 0
+	fr := &freshness{w: w, retSum: map[*ssa.Function]int{}, phiBusy: map[*ssa.Phi]bool{}, fieldBusy: map[string]bool{}}
 	for _, fn := range w.Funcs {
 		if isTestFunc(w, fn) || !inModule(fn) || len(fn.Blocks) == 0 {
 			continue
@@ -1490,8 +1491,24 @@ func printPureRule(w *World, r *Report, rule string) {
 					if _, isField := x.Addr.(*ssa.FieldAddr); isField && fromOutside(x.Addr) {
 						bad(in, "a store to a field of the value")
 					}
+					if ia, isElem := x.Addr.(*ssa.IndexAddr); isElem && lispContainer(ia.X.Type()) {
+						if ok, _ := fr.fresh(ia.X, 0); !ok {
+							bad(in, "a store into the elements of the value")
+						}
+					}
+				case *ssa.MapUpdate:
+					if lispContainer(x.Map.Type()) {
+						if ok, _ := fr.fresh(x.Map, 0); !ok {
+							bad(in, "an entry written into the map of the value")
+						}
+					}
 				case ssa.CallInstruction:
 					c := x.Common()
+					if bi, ok := c.Value.(*ssa.Builtin); ok && (bi.Name() == "delete" || bi.Name() == "clear") && len(c.Args) > 0 && lispContainer(c.Args[0].Type()) {
+						if ok, _ := fr.fresh(c.Args[0], 0); !ok {
+							bad(in, "an entry removed from the map of the value")
+						}
+					}
 					if sc := c.StaticCallee(); sc != nil && sc.Pkg != nil && sc.Pkg.Pkg.Path() == "sync/atomic" {
 						switch sc.Name() {
 						case "Store", "Swap", "CompareAndSwap", "Add", "And", "Or":
